@@ -40,6 +40,8 @@ LEVEL = {
          "Exploration: no model of the pattern language is needed; the relations compare the library with itself across its execution modes and with ada::parse for the component inputs."),
  "C15": ("three-way differential per component value: ada's canonicaliser vs ada's own URL setters (shortcut == slow path) vs RefURL with state override (the Standard), plus construction round trip, constructor-string vs init-dictionary metamorphic relation; rapidcheck + libFuzzer + enumeration of every byte per component",
          "Exploration over literal component values with an exhaustive sweep of all 256 byte values for each of the 8 components (this is what reads the canonicalisers' character-class table)."),
+ "C18": ("differential across six builds of the same tree (in-process ASan build + five digest servers: SSE2 -O2, SSSE3, AVX-512BW+VL, development checks, amalgamated single header); rapidcheck + libFuzzer",
+         "Exploration: one generated input set evaluated by every build; any differing digest line or dying server is a violation. Only x86-64 ISAs this CPU executes."),
  "C19": ("invariant predicate over every reachable state of setter histories; rapidcheck + libFuzzer",
          "Exploration over histories; the record invariants are evaluated after the parse and after every step on both URL types."),
 }
